@@ -255,7 +255,15 @@ def obligations(ctx):
         rc, o = sh("timeout 1500 coqchk -silent -o -Q theories Biscuit Biscuit.Properties.%s" % pid, cwd=COQ, timeout=1600)
         if rc != 0:
             raise CheckBroken("coqchk on %s" % pid, o[-2000:])
-        ctx.notes.append("coqchk: " + " ".join(o.split())[-400:])
+        summary = " ".join(o.split())
+        ctx.notes.append("coqchk: " + summary[-400:])
+        # the independent checker must report no axiom, no type-in-type, no unsafe fixpoint and no
+        # assumed positivity for the property file and everything it depends on
+        for item in ("Axioms", "Constants/Inductives relying on type-in-type",
+                     "Constants/Inductives relying on unsafe (co)fixpoints", "Inductives whose positivity is assumed"):
+            m = re.search(re.escape("* " + item + ":") + r"\s*(\S+)", summary)
+            if not m or m.group(1) != "<none>":
+                raise CheckBroken("coqchk on %s" % pid, "%s: %s" % (item, summary[-600:]))
     return {"theorems": theorems, "examples": examples, "cone": files,
             "axioms": sorted(trusted)}
 
